@@ -90,6 +90,96 @@ out:
 	free(s);
 }
 
+
+/* bh <codec> <maxlen> <buflen> <prev> <hextd> <hexdata> -> r=<ret> name=<hex>
+ * build_hostname is called on buf+1 of an exactly sized heap buffer, buf[0] = prev. */
+static void op_bh(char **tok, int ntok)
+{
+	const struct encoder *e;
+	size_t maxlen, buflen, tdlen, dlen;
+	unsigned char *tdraw, *d;
+	char *td, *buf;
+	int prev, r;
+
+	if (ntok != 7 || !(e = codec_by_name(tok[1]))) { puts("bad-op"); return; }
+	maxlen = strtoul(tok[2], NULL, 10);
+	buflen = strtoul(tok[3], NULL, 10);
+	prev = atoi(tok[4]);
+	tdraw = hex_alloc(tok[5], &tdlen);
+	d = hex_alloc(tok[6], &dlen);
+	if (!tdraw || !d) { puts("bad-op"); return; }
+	if ((maxlen < buflen ? maxlen : buflen) < tdlen + 8) { puts("underflow"); free(tdraw); free(d); return; }
+	td = xmalloc(tdlen + 1);
+	memcpy(td, tdraw, tdlen);
+	td[tdlen] = 0;
+	buf = xmalloc(buflen + 1);
+	memset(buf, 0x5a, buflen + 1);
+	buf[0] = (char) prev;
+	r = build_hostname(buf + 1, buflen, (char *) d, dlen, td, e, (int) maxlen);
+	printf("r=%d name=", r);
+	print_hex((unsigned char *) buf + 1, strnlen(buf + 1, buflen));
+	putchar('\n');
+	free(buf); free(td); free(tdraw); free(d);
+}
+
+/* dotify <hex> -> r=<ret> out=<hex>  (buffer large enough, as for all callers) */
+static void op_dotify(char **tok, int ntok)
+{
+	size_t len;
+	unsigned char *s;
+	char *buf;
+	int r;
+
+	if (ntok != 2 || !(s = hex_alloc(tok[1], &len))) { puts("bad-op"); return; }
+	buf = xmalloc(len + len / 57 + 2);
+	memcpy(buf, s, len);
+	buf[len] = 0;
+	r = inline_dotify(buf, len + len / 57 + 1);
+	printf("r=%d out=", r);
+	print_hex((unsigned char *) buf, strlen(buf));
+	putchar('\n');
+	free(buf); free(s);
+}
+
+/* unpack <codec> <cap> <hex> -> r=<ret> out=<hex> */
+static void op_unpack(char **tok, int ntok, int extract)
+{
+	const struct encoder *e;
+	size_t cap, len, h = 0, dlen;
+	unsigned char *s, *out;
+	char *in;
+	int r;
+
+	if (!(e = codec_by_name(tok[1]))) { puts("bad-op"); return; }
+	if (extract) {
+		/* extract <codec> <h> <dlen> <hexname>: what the server does with an accepted name */
+		if (ntok != 5) { puts("bad-op"); return; }
+		h = strtoul(tok[2], NULL, 10);
+		dlen = strtoul(tok[3], NULL, 10);
+		s = hex_alloc(tok[4], &len);
+		cap = 64 * 1024;
+		if (!s || dlen > len || h > dlen || dlen >= 512) { puts("bad-op"); free(s); return; }
+		in = xmalloc(512);
+		memcpy(in, s, dlen);
+		in[dlen] = 0;
+		out = xmalloc(cap);
+		r = unpack_data((char *) out, cap, in + h, dlen - h, e);
+	} else {
+		if (ntok != 4) { puts("bad-op"); return; }
+		cap = strtoul(tok[2], NULL, 10);
+		s = hex_alloc(tok[3], &len);
+		if (!s) { puts("bad-op"); return; }
+		in = xmalloc(len + 1);
+		memcpy(in, s, len);
+		out = xmalloc(cap + 1);
+		r = unpack_data((char *) out, cap, in, len, e);
+	}
+	printf("r=%d out=", r);
+	print_hex(out, r < 0 ? 0 : r);
+	putchar('\n');
+	free(in); free(out); free(s);
+}
+
 int main(void)
 {
 	char *line = NULL;
@@ -104,6 +194,10 @@ int main(void)
 		if (!strcmp(tok[0], "enc")) op_enc(tok, ntok, 0);
 		else if (!strcmp(tok[0], "encdec")) op_enc(tok, ntok, 1);
 		else if (!strcmp(tok[0], "dec")) op_dec(tok, ntok);
+		else if (!strcmp(tok[0], "bh")) op_bh(tok, ntok);
+		else if (!strcmp(tok[0], "dotify")) op_dotify(tok, ntok);
+		else if (!strcmp(tok[0], "unpack")) op_unpack(tok, ntok, 0);
+		else if (!strcmp(tok[0], "extract")) op_unpack(tok, ntok, 1);
 		else puts("bad-op");
 	}
 	fflush(stdout);
